@@ -605,6 +605,13 @@ End Proofs.
 Lemma map_self l : map self l = l.
 Proof. induction l as [|x l IH]; cbn; [reflexivity|]. unfold self at 1. f_equal. exact IH. Qed.
 
+Lemma in_dedup_self l x : In x (dedup_by self l) <-> In x l.
+Proof.
+  split.
+  - intros Hx. apply (in_map self) in Hx. apply (proj1 (dedup_keys self _ _)) in Hx. rewrite map_self in Hx. exact Hx.
+  - intros H. rewrite <- (map_self (dedup_by self l)). apply (proj2 (dedup_keys self _ x)). rewrite map_self. exact H.
+Qed.
+
 Lemma map_flat_map {A B D} (f : B -> D) (g : A -> list B) l : map f (flat_map g l) = flat_map (fun x => map f (g x)) l.
 Proof. induction l as [|x l IH]; cbn; [reflexivity|]. rewrite map_app, IH. reflexivity. Qed.
 
@@ -1001,8 +1008,9 @@ End Proofs.
 (* ================= part 9 ================= *)
 Lemma case_injb_sound l : case_injb l = true -> case_inj l.
 Proof.
-  unfold case_injb. intros H a b Ha Hb E. rewrite forallb_forall in H. specialize (H a Ha).
-  rewrite forallb_forall in H. specialize (H b Hb). unfold same_ident in H. rewrite E, String.eqb_refl in H.
+  unfold case_injb. intros H a b Ha Hb E. cbv zeta in H. rewrite forallb_forall in H.
+  specialize (H a (proj2 (in_dedup_self l a) Ha)).
+  rewrite forallb_forall in H. specialize (H b (proj2 (in_dedup_self l b) Hb)). unfold same_ident in H. rewrite E, String.eqb_refl in H.
   cbn in H. apply String.eqb_eq. exact H.
 Qed.
 
@@ -1023,7 +1031,7 @@ Proof.
   unfold case_distinctb, case_distinct. rewrite andb_true_iff, forallb_forall. intros (H1 & H2). split.
   - apply case_injb_sound, H1.
   - intros n. destruct (mem_str n (type_names evs)) eqn:E.
-    + apply mem_str_In in E. apply case_injb_sound, H2, E.
+    + apply mem_str_In in E. apply case_injb_sound, H2, in_dedup_self, E.
     + apply mem_str_false in E. destruct (descs_named_nil n evs E) as (-> & _). intros a b [].
 Qed.
 
